@@ -27,7 +27,10 @@ VerdictIndep(r) ==
   IF /\ \A k \in DOMAIN r.full : Lead(r.full[k][1], r.prefix) # Lead(r.dropped, r.prefix)
      /\ {r.part[k] : k \in DOMAIN r.part} \subseteq {r.full[k] : k \in DOMAIN r.full} /\ ~IsSubseq(r.part, r.full)
   THEN "order-depends-on-unrelated-row" ELSE "ok"
-Verdict(r) == CASE r.kind = "patch" -> VerdictPatch(r) [] r.kind = "config" -> VerdictConfig(r) [] OTHER -> VerdictIndep(r)
+\* kind "comments": [id, pt (sorted patch built without comments), ptc (the same patch built with add_comments, the comment text cut off each row)]:
+\* a comment is decoration of the displayed line, it takes no part in ordering
+VerdictComments(r) == IF r.ptc = r.pt THEN "ok" ELSE IF BagI(r.ptc) = BagI(r.pt) THEN "comments-change-the-order" ELSE "comments-change-the-patch"
+Verdict(r) == CASE r.kind = "patch" -> VerdictPatch(r) [] r.kind = "config" -> VerdictConfig(r) [] r.kind = "comments" -> VerdictComments(r) [] OTHER -> VerdictIndep(r)
 Init == i = 0
 Next == /\ i < Len(Recs) /\ i' = i + 1
         /\ PrintT(<<"V", Recs[i + 1].id, Verdict(Recs[i + 1])>>)
